@@ -21,7 +21,7 @@ POOL = [0, 1, -1, 2, 3, 0.5, -2.5, 100,
         '', 'a', 'A', 'b', 'abc',
         True, False, None] + list(R.ERRORS)
 EXT = [1234567, 3.14159265, 0.1, 0.2, 1000, -1000, 12345.678, 7.0, -0.5, '1e2', '5E-1', '-2e1', '2.50', 'B', 'aB', ' ', '1 ', 'TRUE', 10,
-       'inf', 'nan', '1e400', '1_000']
+       'inf', 'nan', '1e400', '1_000', '\u00b2', '12\u00b3', '\u2460']       # superscript / circled digits: str.isdigit() but not numbers
 BIN_OPS = ['+', '-', '*', '/', '^', '&', '=', '<>', '<', '<=', '>', '>=']
 ALL_OPS = BIN_OPS + ['neg', '%']
 
